@@ -314,6 +314,17 @@ func nonTrivial(r Result) bool {
 
 var caseCounter int
 
+// aborted is set after harness trouble: the run is reported as inconclusive
+// (driver exit 2) and the remaining cases are not executed.
+var aborted bool
+
+func abort(msg string) {
+	if !aborted {
+		ev.Inconclusive("C43 harness trouble: %s", msg)
+	}
+	aborted = true
+}
+
 func TestPopulations(t *testing.T) {
 	if ev.ReplayPath() != "" {
 		t.Skip("replaying")
@@ -321,16 +332,20 @@ func TestPopulations(t *testing.T) {
 	rec := ev.New(t, prop, "random-populations",
 		"rapid: 1..10 items over agents/caches/staging/other areas of a private data directory: agent installations (binary atime and mtime drawn independently around 30 d), caches and staging roots (mtime around 7 d; offsets 11 s..60 d, band +-10 s without verdict, future stamps), nested contents, symlinks to an outside canary tree (old and young targets), dangling links, non-directories in unexpected places, old files in unrelated areas; oracle from the statement's thresholds and the instants measured around the call. Non-trivial: the population holds at least one item that must go and one that must stay")
 	base := t.TempDir()
-	ev.Check(t, rec, 1200, 20000, func(rt *rapid.T) {
+	ev.Check(t, rec, 1000, 20000, func(rt *rapid.T) {
 		c := drawCase(rt)
+		if aborted {
+			return
+		}
 		caseCounter++
 		root := filepath.Join(base, fmt.Sprintf("case-%d", caseCounter))
 		defer os.RemoveAll(root)
 		res := judge(c, root)
-		rec.Eval()
 		if strings.HasPrefix(res.Violation, "harness: ") {
-			rt.Fatalf("%s", res.Violation)
+			abort(res.Violation)
+			return
 		}
+		rec.Eval()
 		if res.Violation != "" {
 			ev.Failf(rt, rec, c, "%s", res.Violation)
 		}
@@ -358,6 +373,10 @@ func TestReplay(t *testing.T) {
 	rec := ev.New(t, prop, "replay", "replay of a saved case")
 	res := judge(&c, filepath.Join(t.TempDir(), "case"))
 	rec.Eval()
+	if strings.HasPrefix(res.Violation, "harness: ") {
+		abort(res.Violation)
+		t.Skip("harness trouble")
+	}
 	if res.Violation != "" {
 		ev.FailTB(t, rec, &c, "%s", res.Violation)
 	}
